@@ -38,12 +38,23 @@ def diskOf (tr : List Eff) : Disk := tr.foldl Disk.apply {}
 inductive SOp where
   | write (e : Entry)                         -- AddOperation creating `e`
   | fetched (e : Entry)                       -- the replicator fetched the block of `e`
-  | merged (batch : List Entry) (heads : List Nat)  -- replicationLoadComplete joined `batch`; the log's heads are now `heads`
+  | merged (batch : List Entry) (heads : List Nat)  -- replicationLoadComplete: `batch` = entries of the logs it joined (`joinedEntries`); the log's heads are now `heads`
 
 def SOp.effects : SOp → List Eff
   | .write e => [.block e.hash, .cacheLocal [e.hash], .ack e.hash]
   | .fetched e => [.block e.hash]
   | .merged batch heads => [.cacheRemote heads, .replicated (batch.map (·.hash))]
+
+/-- the entries `replicationLoadComplete` reports in its `replicated` event:
+`entries = append(entries, log.GetEntries()...)` is executed only for the logs whose `Join`
+succeeded (a rejected log is skipped before it), each log being joined into the result of the
+accepted joins before it -/
+def joinedEntries (acl : Acl) (L : Log) : List (OMap × OMap) → List Entry
+  | [] => []
+  | (es, hs) :: rest =>
+    match join acl.canAppend L es hs L.id with
+    | .ok L' => es ++ joinedEntries acl L' rest
+    | .error _ => joinedEntries acl L rest
 
 /-- hashes reachable from `roots` through `next` links among entries of `U` whose block is on disk
 (what `Load(-1)` rebuilds: `NewFromEntryHash` per cached head, then `Join`). Fuel = number of blocks. -/
